@@ -352,9 +352,10 @@ func ruleC06c(c *Ctx) []*report.Result {
 				}
 				if role == "" {
 					r.Fail(name+" / role", c.P.Pos(s.Fn.Pos()), "helper has none of the four known effects from override=none: "+cfg, nil, cfg)
-				} else if prev, dup := roles[role]; dup && prev != s.Fn {
-					r.Fail(name+" / role", c.P.Pos(s.Fn.Pos()), "two helpers play the role "+role, nil, cfg)
 				} else {
+					// several helpers may share a role (a generic helper
+					// taking the override as a parameter and its two
+					// one-line instances)
 					roles[role] = s.Fn
 					r.Ok(name + " is the " + role + " helper: " + cfg)
 				}
@@ -690,13 +691,31 @@ func (c *Ctx) isFmtInterface(t types.Type) bool {
 func ruleC12d(c *Ctx) []*report.Result {
 	a := c.AFmt()
 	r := report.NewResult("C12.d", "every printer method that copies its buffer into another printer (a nested printer borrows the caller's buffer by value) has copied it back on every normal AND every panicking exit, for every reachable configuration: the caller never continues on a stale copy of a buffer the nested printer has already appended to", 8)
-	lenders := map[*ssa.Function]bool{}
+	// the obligation is stated at the boundary to the user: the exported
+	// printer methods from which a hand-over is reachable (a helper that
+	// sets up the nested printer and returns it passes the obligation on to
+	// its caller)
+	copiers := map[*ssa.Function]bool{}
 	for _, e := range eventsOf(a.It, "bufcopy") {
-		lenders[e.Fn] = true
+		copiers[e.Fn] = true
 	}
-	if len(lenders) == 0 {
+	if len(copiers) == 0 {
 		r.Undecide("no buffer hand-over between printers found")
 		return []*report.Result{c.finish(r)}
+	}
+	lenders := map[*ssa.Function]bool{}
+	for _, fn := range c.P.ModuleFunctions() {
+		if recvNamed(fn) != tPP || fn.Object() == nil || !fn.Object().Exported() || fn.Parent() != nil {
+			continue
+		}
+		for g := range c.reach(fn, false) {
+			if copiers[g] {
+				lenders[fn] = true
+			}
+		}
+		if copiers[fn] {
+			lenders[fn] = true
+		}
 	}
 	for _, k := range sortedSummaryKeys(a.It) {
 		s := a.It.Summaries[k]
